@@ -16,7 +16,7 @@ UNDECODABLE = b'\xff\xfe\x00\xd8\x41\x00'     # UTF-16LE BOM followed by a lone 
 def build_sets(ctx):
     rng = ctx.rng
     sets = []
-    for _ in range(14 if ctx.quick() else 150):
+    for _ in range(14 if ctx.quick() else 900):
         base, ns = units.gen_valid(rng, size=1)
         kind = rng.choice(['valid', 'valid', 'semantic', 'syntax', 'lexical', 'undecodable', 'mixed'])
         decls = base
